@@ -20,10 +20,18 @@ private theorem foldl_pairAdd (acc : Int × Nat) (cs : List (List Int)) :
     simp only [pairAdd, sumAndN, List.sum_append, List.length_append]
     ext <;> simp <;> omega
 
-theorem mean_chunks_partial (cs : List (List Int)) : meanStream cs = sumAndN cs.flatten := by
-  unfold meanStream
-  rw [foldl_pairAdd]
-  simp [pairAdd]
+theorem mean_chunks_partial (cs : List (List Int)) (h : cs ≠ []) : meanStream cs = .ok (sumAndN cs.flatten) := by
+  cases cs with
+  | nil => exact absurd rfl h
+  | cons c t =>
+    simp only [meanStream]
+    rw [foldl_pairAdd]
+    simp [pairAdd]
+
+/-- the streamed mean raises exactly on the stream without chunks (`sum(())` is the integer 0, `0[:-1]` is a
+`TypeError`); chunks that are all empty give the pair (0, 0), i.e. `nan`, as in memory -/
+theorem meanStream_error_iff (cs : List (List Int)) : meanStream cs = .error .emptyStream ↔ cs = [] := by
+  cases cs <;> simp [meanStream]
 
 /-! ### bincount -/
 theorem size_append (a b : List Nat) : size (a ++ b) = max (size a) (size b) := by
@@ -146,17 +154,67 @@ private theorem hist_fold (e : List Int) (a : List Int) (rest : List (List Int))
     simp only [List.map_cons, List.foldl_cons, pyAdd_arr, histogram_add, List.flatten_cons]
     rw [ih]; simp
 
-theorem histogram_chunks (edges : List Int) (cs : List (List Int)) (h : cs ≠ []) :
-    histogramStream edges cs = some (histogram edges cs.flatten, edges) := by
+theorem histogramReduce_chunks (edges : List Int) (cs : List (List Int)) (h : cs ≠ []) :
+    histogramReduce (cs.map (fun c => (histogram edges c, edges))) = some (histogram edges cs.flatten, edges) := by
   cases cs with
   | nil => exact absurd rfl h
   | cons c rest =>
-    simp only [histogramStream, List.map_cons, histogramReduce, List.flatten_cons]
+    simp only [List.map_cons, histogramReduce, List.flatten_cons]
     cases rest with
     | nil => simp
     | cons d ds =>
       simp only [List.map_cons, List.foldl_cons, pyAdd_zero, hist_fold, histogram_add, List.flatten_cons]
       rw [histogram_comm]
+
+/-- **histogram** with explicit edges: on a stream with at least one chunk the streamed call does what the
+in-memory call does on the concatenated data - the same counts and edges when the edges never decrease, the same
+`ValueError` when they do - for every chunking -/
+theorem histogram_chunks (edges : List Int) (cs : List (List Int)) (h : cs ≠ []) :
+    histogramStream edges cs = histogramMem edges cs.flatten := by
+  unfold histogramStream histogramMem
+  rw [if_neg h, histogramReduce_chunks edges cs h]
+  cases edgesMono edges <;> simp
+
+/-- `edgesMono` pinned by the standard notion: every edge is at most the next one -/
+theorem edgesMono_iff (e : List Int) : edgesMono e = true ↔ ∀ i (h : i + 1 < e.length), e[i]'(by omega) ≤ e[i + 1] := by
+  induction e with
+  | nil => simp [edgesMono]
+  | cons a t ih =>
+    cases t with
+    | nil => simp [edgesMono]
+    | cons b t2 =>
+      have hstep : edgesMono (a :: b :: t2) = (decide (a ≤ b) && edgesMono (b :: t2)) := by
+        simp [edgesMono]
+      rw [hstep, Bool.and_eq_true, ih]
+      constructor
+      · rintro ⟨hab, hrest⟩ i hi
+        cases i with
+        | zero => simpa using hab
+        | succ j => simpa using hrest j (by simpa using hi)
+      · intro hall
+        refine ⟨by simpa using hall 0 (by simp), fun i hi => ?_⟩
+        simpa using hall (i + 1) (by simpa using hi)
+
+/-- the in-memory histogram raises exactly on edges that decrease somewhere (any number of edges is accepted:
+fewer than two give no bins) -/
+theorem histogramMem_error_iff (e : List Int) (c : List Int) :
+    histogramMem e c = .error .badEdges ↔ ∃ i, ∃ h : i + 1 < e.length, e[i + 1] < e[i]'(by omega) := by
+  have hm := edgesMono_iff e
+  unfold histogramMem
+  cases hE : edgesMono e
+  · simp only [Bool.false_eq_true, if_false, true_iff]
+    rcases Classical.em (∃ i, ∃ h : i + 1 < e.length, e[i + 1] < e[i]'(by omega)) with hx | hx
+    · exact hx
+    · exfalso
+      have : edgesMono e = true := hm.2 (fun i hi => by
+        rcases Int.lt_or_ge (e[i + 1]) (e[i]'(by omega)) with hlt | hge
+        · exact absurd ⟨i, hi, hlt⟩ hx
+        · exact hge)
+      simp [hE] at this
+  · simp only [if_true, reduceCtorEq, false_iff]
+    rintro ⟨i, hi, hlt⟩
+    have := (hm.1 hE) i hi
+    omega
 
 theorem kmerHashes_append (A k : Nat) (a b : List (List Nat)) :
     kmerHashes A k (a ++ b) = kmerHashes A k a ++ kmerHashes A k b := by
@@ -234,8 +292,8 @@ theorem map_chunks {α β} (g : α → β) (cs : List (List α)) :
 /-- **quantiles** (`quantile(stream, q)`): computed from the streamed bincount, so equal to the quantile
 index of the concatenated data for every chunking. Partial: `q * total` is a float product at run time. -/
 theorem quantile_chunks_partial (cs : List (List Nat)) (p d : Nat) (h : cs ≠ []) :
-    quantileStream cs p d = some (quantileOf (bincount 0 cs.flatten) p d) := by
-  simp [quantileStream, bincount_chunks 0 cs h]
+    quantileStream cs p d = quantileMem cs.flatten p d := by
+  simp [quantileStream, quantileMem, bincount_chunks 0 cs h]
 
 theorem cumsumFrom_length (acc : Nat) (l : List Nat) : (cumsumFrom acc l).length = l.length := by
   induction l generalizing acc with
@@ -2324,10 +2382,41 @@ theorem bincountStream_none_iff (ml : Nat) (cs : List (List Nat)) : bincountStre
   | nil => simp [bincountStream, reduce1]
   | cons c t => simp [bincount_chunks ml (c :: t)]
 
-theorem histogramStream_none_iff (e : List Int) (cs : List (List Int)) : histogramStream e cs = none ↔ cs = [] := by
+/-- the streamed histogram raises `StopIteration` exactly on the stream without chunks (whatever the edges) -/
+theorem histogramStream_stop_iff (e : List Int) (cs : List (List Int)) : histogramStream e cs = .error .stop ↔ cs = [] := by
   cases cs with
-  | nil => simp [histogramStream, histogramReduce]
-  | cons c t => simp [histogram_chunks e (c :: t)]
+  | nil => simp [histogramStream]
+  | cons c t =>
+    rw [histogram_chunks e (c :: t) (by simp)]
+    unfold histogramMem
+    cases edgesMono e <;> simp
+
+/-- `bincount` of data is empty exactly when there is no data (and no `minlength`) -/
+theorem bincount_zero_eq_nil (c : List Nat) : bincount 0 c = [] ↔ c = [] := by
+  cases c with
+  | nil => simp [bincount, size]
+  | cons a t =>
+    have : (bincount 0 (a :: t)).length ≠ 0 := by
+      rw [bincount_length]; simp [size]
+    constructor
+    · intro h; rw [h] at this; simp at this
+    · intro h; cases h
+
+/-- the streamed quantile raises `TypeError` (`reduce` of nothing) exactly on the stream without chunks ... -/
+theorem quantileStream_emptyStream_iff (cs : List (List Nat)) (p d : Nat) :
+    quantileStream cs p d = .error .emptyStream ↔ cs = [] := by
+  cases cs with
+  | nil => simp [quantileStream, bincountStream, reduce1]
+  | cons c t =>
+    rw [quantile_chunks_partial (c :: t) p d (by simp)]
+    unfold quantileMem quantileHist
+    split <;> simp
+
+/-- ... and `IndexError` exactly when there are chunks but no data, which is when the in-memory call raises it too -/
+theorem quantileMem_noData_iff (c : List Nat) (p d : Nat) : quantileMem c p d = .error .noData ↔ c = [] := by
+  unfold quantileMem quantileHist
+  rw [← bincount_zero_eq_nil c]
+  split <;> simp_all
 
 /-- the result depends on the data only, not on how it was cut (for two non-empty streams of the same data) -/
 theorem bincount_chunking_independent (ml : Nat) (cs cs' : List (List Nat)) (h : cs.flatten = cs'.flatten)
@@ -2338,9 +2427,9 @@ theorem histogram_chunking_independent (e : List Int) (cs cs' : List (List Int))
     (h1 : cs ≠ []) (h2 : cs' ≠ []) : histogramStream e cs = histogramStream e cs' := by
   rw [histogram_chunks e cs h1, histogram_chunks e cs' h2, h]
 
-theorem mean_chunking_independent (cs cs' : List (List Int)) (h : cs.flatten = cs'.flatten) :
-    meanStream cs = meanStream cs' := by
-  rw [mean_chunks_partial, mean_chunks_partial, h]
+theorem mean_chunking_independent (cs cs' : List (List Int)) (h : cs.flatten = cs'.flatten)
+    (h1 : cs ≠ []) (h2 : cs' ≠ []) : meanStream cs = meanStream cs' := by
+  rw [mean_chunks_partial cs h1, mean_chunks_partial cs' h2, h]
 
 theorem groupby_chunking_independent {α κ : Type} [DecidableEq κ] [Inhabited α] (fast : Bool) (key : α → κ)
     (cs cs' : List (List α)) (h : cs.flatten = cs'.flatten) (hcon : Contig (cs.flatten.map key)) :
